@@ -426,8 +426,30 @@ class ExcelModel:
             ra.push(get(cells, 'cell', rng['sheet_id']))
             ranges.append(ra)
         ranges = sorted(ranges, key=lambda x: len(x.missing))
+        # A range with few unlisted blank cells lists them as nodes, which may
+        # in turn leave few unlisted cells to other ranges: take the closure,
+        # so that the listed blanks do not depend on the order of the ranges.
+        defaults, pending, users, done = dsp.default_values, {}, {}, set()
         for ra in ranges:
+            pending[ra] = {k for k in ra.missing_names if k not in defaults}
+            for k in pending[ra]:
+                users.setdefault(k, []).append(ra)
+        stack = [ra for ra in ranges if len(pending[ra]) <= ra.compact][::-1]
+        while stack:
+            ra = stack.pop()
+            if ra in done:
+                continue
+            done.add(ra)
             ra.add(dsp)
+            for k in pending[ra]:
+                for other in users[k]:
+                    if other not in done:
+                        pending[other].discard(k)
+                        if len(pending[other]) <= other.compact:
+                            stack.append(other)
+        for ra in ranges:
+            if ra not in done:
+                ra.add(dsp)
 
     def assemble(self, compact=1):
         cells, get = {}, sh.get_nested_dicts
